@@ -1,5 +1,5 @@
 SPECIFICATION Spec
-CONSTANTS MinN = 5  MaxN = 5  NameIdx = {1, 3, 6}  MaxKids = 3  MaxEdges = 10  MaxIso = 0  MaxExtraRoots = 0
+CONSTANTS MinN = 5  MaxN = 5  NameIdx = {1, 3, 6, 7}  MaxKids = 3  MaxEdges = 10  MaxIso = 0  MaxExtraRoots = 0
           RootPerm = FALSE  Topo = TRUE  Gen = TRUE
 VIEW view
 INVARIANT TypeOK
